@@ -30,9 +30,11 @@ var (
 		{0x01, 0x00, 0x5e, 0x00, 0x00, 0xfb}, // 2 multicast
 		{0x00, 0x02, 0x03, 0x04, 0x05, 0x01}, // 3 c1
 		{0x00, 0x02, 0x03, 0x04, 0x05, 0x02}, // 4 c2
-		{0x00, 0x02, 0x03, 0x04, 0x05, 0x03}, // 5 c3
-		{0x00, 0x02, 0x03, 0x04, 0x05, 0x04}, // 6 c4
-		{0x00, 0x02, 0x03, 0x04, 0x05, 0x05}, // 7 c5
+		// the stations differ from one another in a single byte, each pair in another position (own/c1: byte 1,
+		// c1/c2: byte 5, c1/c3: byte 4, c1/c4: byte 3, c2/c5: byte 2): a MAC comparison must look at all six
+		{0x00, 0x02, 0x03, 0x04, 0x15, 0x01}, // 5 c3
+		{0x00, 0x02, 0x03, 0x14, 0x05, 0x01}, // 6 c4
+		{0x00, 0x02, 0x13, 0x04, 0x05, 0x02}, // 7 c5
 	}
 	hMACName = []string{"own", "router", "mcast", "c1", "c2", "c3", "c4", "c5"}
 )
@@ -61,6 +63,9 @@ type histCfg struct {
 	LAN    int `json:"lan"`             // 0: /24, 1: /25, 2: /28
 	Timing int `json:"timing"`          // index into hTimings
 	Quiet  int `json:"quiet,omitempty"` // log level of the package loggers: 0 default (info), 1 error only, 2 debug: behaviour must not depend on it
+	// the application has stopped reading Session.C: the channel is full from the start and never drained
+	// (notifications are then dropped by design; host tracking must go on as before). Not used with the C06 oracle.
+	Full bool `json:"full,omitempty"`
 }
 
 var hLANs = []struct {
@@ -427,8 +432,18 @@ func runHistory(tb drv.TB, rec *drv.Rec, sub string, h history, or histOracles) 
 		host.LastSeen = vbase.Add(m.now)
 		host.MACEntry.LastSeen = host.LastSeen
 	}
+	full := h.Cfg.Full && !or.Notes
+	if full {
+		for len(s.C) < cap(s.C) {
+			s.C <- packet.Notification{}
+		}
+		rec.Class("notification channel full throughout")
+	}
 	drain := func() []packet.Notification {
 		var out []packet.Notification
+		if full {
+			return nil
+		}
 		for {
 			select {
 			case n := <-s.C:
